@@ -76,7 +76,9 @@ def cases(ctx):
         for inputs in (False, True):
             yield {"op": "remove_unloaded", "c": q, "inputs": inputs, "src": "DAG5"}
     if ctx.hashseed == 0:
-        yield {"op": "remove_unloaded", "c": deep_chain(1100), "inputs": False, "src": "DEEP"}     # deeper than Python's recursion limit
+        # deeper than Python's recursion limit; judged only if the call raises (the declarative judgement of a 1100-node
+        # circuit costs minutes in TLC)
+        yield {"op": "remove_unloaded", "c": deep_chain(1100), "inputs": False, "src": "DEEP", "sparse": True}
     for j in range(150 if ctx.quick else 3000):
         r = ctx.rng("C16g3", j)
         c = gen.rand_circuit(r, n_in=r.randint(1, 4), n_gates=r.randint(2, 9), max_fanin=3, out_is_input=0.3, loaded_in_out=0.15)
@@ -117,6 +119,9 @@ def run_case(case, ctx):
     except Exception as e:
         ev["exc"] = type(e).__name__
     ev["nontrivial"] = bool(ev["ret"])
+    if case.get("sparse") and not ev["exc"]:
+        ctx.count("deep_chain_without_exception_not_recorded")
+        return []
     return ev
 
 
